@@ -415,7 +415,20 @@ func (fr *Frame) applyContract(st *State, ct *Contract, callee *ssa.Function, c 
 	switch {
 	case ct.Pure:
 	case ct.HasAssigns:
-		ex.havocComps(st, ct.Assigns)
+		var comps []string
+		for _, a := range ct.Assigns {
+			if !strings.HasPrefix(a, "*") {
+				comps = append(comps, a)
+				continue
+			}
+			// "*param": only the struct the pointer argument points to is written (shallowly). The pointee type
+			// is taken from the argument expression at this call site (through an interface conversion if any);
+			// when it cannot be determined every struct field heap is havocked instead.
+			if !fr.havocPointee(st, strings.TrimPrefix(a, "*"), names, c, args) {
+				comps = append(comps, "H.*")
+			}
+		}
+		ex.havocComps(st, comps)
 		nf := f.Fresh("frontier", SInt)
 		ex.assume(st, f.Ge(nf, st.frontier))
 		st.frontier = nf
